@@ -378,6 +378,46 @@ def rule_C(run, prog):
         run.obligation(rid, f.short, not bad and bool(acc or via), key="accumulate-only",
                        message="inside the distributed loop %s must only be accumulated (+=): %s" % (arr, bad),
                        loc=f.loc(lp), sample={"site": f.short, "accumulated_in": [norm(a)[:50] for a in acc] + via})
+        # nothing else leaves the distributed loop unreduced: every array that receives a store inside the loop (directly
+        # or in a callee it is handed to) and is used after the loop must be sum-reduced between loop and region close
+        written = set()
+        for n in ast.walk(lp):
+            tg = n.targets if isinstance(n, ast.Assign) else ([n.target] if isinstance(n, ast.AugAssign) else [])
+            for t in tg:
+                b = t
+                sub = False
+                while isinstance(b, ast.Subscript):
+                    b, sub = b.value, True
+                if sub and isinstance(b, ast.Name):
+                    written.add(b.id)
+            if isinstance(n, ast.Call):
+                for t in prog.resolve_call(f, n, may=False):
+                    ps = [a.arg for a in t.node.args.args]
+                    if t.cls is not None:
+                        ps = ps[1:]
+                    stored = set()
+                    for m_ in ast.walk(t.node):
+                        tg2 = m_.targets if isinstance(m_, ast.Assign) else ([m_.target] if isinstance(m_, ast.AugAssign) else [])
+                        for t2 in tg2:
+                            b2 = t2
+                            while isinstance(b2, ast.Subscript):
+                                b2 = b2.value
+                            if isinstance(b2, ast.Name) and isinstance(t2, ast.Subscript):
+                                stored.add(b2.id)
+                    for k, a in enumerate(n.args):
+                        if isinstance(a, ast.Name) and k < len(ps) and ps[k] in stored:
+                            written.add(a.id)
+        reduced = {norm(s.value.args[0]) for s in body[idx["loop"] + 1:idx["close"]] if isinstance(s, ast.Expr)
+                   and isinstance(s.value, ast.Call) and call_name(s.value) == "allreduce" and s.value.args}
+        used_after = {x.id for s in body[idx["loop"] + 1:] for x in ast.walk(s) if isinstance(x, ast.Name)
+                      and isinstance(x.ctx, ast.Load)}
+        loopvars = {x.id for x in ast.walk(lp.target) if isinstance(x, ast.Name)}
+        unreduced = sorted((written & used_after) - reduced - loopvars)
+        run.obligation(rid, f.short, not unreduced, key="all-reduced",
+                       message="%s is filled inside the distributed loop - every process fills only its own block - and is "
+                               "used after the loop without a sum-reduction: on more than one process the other blocks "
+                               "stay as allocated" % unreduced, loc=f.loc(lp),
+                       sample={"site": f.short, "written_in_loop": sorted(written), "reduced": sorted(reduced)})
         # zero before the region: allocated with zeros in this function, or a parameter documented as zero
         alloc = [s for s in body[:idx["start"]] if isinstance(s, ast.Assign) and norm(s.targets[0]) == arr
                  and isinstance(s.value, ast.Call) and call_name(s.value) == "zeros"]
